@@ -58,11 +58,21 @@ package websockets
 // injectWebsocketMessage: nothing to inject returns the message itself; otherwise only keys that are not yet present
 // under the injection path are added, with the injected values, and the message type is kept.
 //@ func injectWebsocketMessage props(C11,C07)
+//@   requires len(injectionPath) >= 1
+//@   loop 1
+//@     invariant[C11:descended-into-an-object] idx >= 0 ==> currJSONComponent != nil
 //@   ensures[C11:nil-message-is-an-error] msg == nil ==> r1 != nil && r0 == nil
-//@   ensures[C11:nothing-to-inject-is-identity] msg != nil && (injectionValues == nil || len(injectionValues) == 0) ==> r0 == msg && r1 == nil
+//@   ensures[C11:nothing-to-inject-is-identity] msg != nil && (injectionValues == nil || old(len(injectionValues)) == 0) ==> r0 == msg && r1 == nil
 //@   ensures[C11:type-kept] r1 == nil && r0 != nil ==> r0.Type == old(msg.Type)
 //@   ensures[C11:error-returns-no-message] r1 != nil ==> r0 == nil
 //@   loop 2
 //@     assigns mapof(currJSONComponent)
 //@     invariant[C11:existing-keys-untouched] currJSONComponent != nil && forall_str(key2, pre(in(key2, currJSONComponent)) ==> in(key2, currJSONComponent) && currJSONComponent[key2] == pre(currJSONComponent[key2]))
 //@     invariant[C11:only-missing-injected-keys-added] forall_str(key2, in(key2, currJSONComponent) && !pre(in(key2, currJSONComponent)) ==> in(key2, injectionValues) && typeis(currJSONComponent[key2], "string") && ifaceStr(currJSONComponent[key2]) == injectionValues[key2])
+
+// Close: queues the websocket close frame and closes the client queue. Both operations are on a channel of a shared
+// connection (see the type clause): the safety obligations of the two statements are the known findings of C12.
+//@ func (*Connection).Close props(C12,C07)
+//@   requires conn != nil && conn.clientMessages != nil
+//@   send clientMessages
+//@     assert[C12:close-frame-queued-first] arg0 == conn.clientMessages && arg1 != nil && arg1.Type == 8
